@@ -978,7 +978,94 @@ def edit_postconditions(geo, CL, area0, ncols_want, nnodes_want):
     return out
 
 
-def edit_sequence(conv, cs, seq, spaces, atm, grid):
+RENAME_PRIMES = ('none', 'rename-all-to-themselves', 'rename-upper-case', 'rename-one-identical-pair', 'rename-partly-identical')
+
+
+def rename_prime(m, geo, prime, chars_arg, spaces, CL, LL, add):
+    """First step of a two-step history: rename_column / rename_layer with lists that map some or all names to
+    themselves, then the operations that rely on the by-name dictionaries (add_layer / add_column refusing an existing
+    name).  Every name clause must still hold; returns False when the sequence should stop."""
+    ok = True
+    for what, fn, lst_of, dct_of, L in (('column', geo.rename_column, lambda: geo.columnlist, lambda: geo.column, CL),
+                                        ('layer', geo.rename_layer, lambda: geo.layerlist, lambda: geo.layer, LL)):
+        names = [x.name for x in lst_of()]
+        if prime == 'rename-all-to-themselves':
+            old, new = list(names), list(names)
+        elif prime == 'rename-upper-case':
+            old, new = list(names), [x.upper() for x in names]
+        elif prime == 'rename-one-identical-pair':
+            old, new = names[-1], names[-1]
+        else:
+            if what == 'column':
+                try:
+                    fresh = geo.new_column_name(justfn=str.rjust, chars=chars_arg, spaces=spaces)[0]
+                except Exception:
+                    continue
+            else:
+                fresh = 'zq'.rjust(L)
+            if fresh in names or len(names) < 2:
+                continue
+            old, new = [names[0], names[-1]], [names[0], fresh]
+        if not isinstance(new, str) and len(set(new)) != len(new):
+            continue                # upper-casing would merge two names: not a legal rename list
+        op = 'rename_%s' % what
+        area0 = sum(c.area for c in geo.columnlist)
+        count0 = len(names)
+        try:
+            with quiet():
+                with core.timelimit(CALL_LIMIT * 3):
+                    res = fn(old, new)
+        except core.CaseTimeout:
+            add(op, 'does-not-terminate', 'below-capacity', 0, '%s(%r, %r) gave no result' % (op, old, new))
+            return False
+        except Exception as e:
+            add(op, 'raises-%s' % type(e).__name__, 'below-capacity', 0, '%s(%r, %r) raised %r' % (op, old, new, e))
+            return False
+        lst, dct = lst_of(), dct_of()
+        now = [x.name for x in lst]
+        want = list(names)
+        if isinstance(old, str):
+            old, new = [old], [new]
+        for o, nw in zip(old, new):
+            want[names.index(o)] = nw
+        problems = []
+        if res is not True:
+            problems.append(('edit-refused', 'returned %r' % (res,)))
+        if now != want:
+            problems.append(('names-after-rename', 'names are %r, expected %r' % (now[:6], want[:6])))
+        if len(dct) != len(lst) or sorted(dct) != sorted(now) or any(dct[k].name != k for k in dct):
+            problems.append(('%s-lost' % what, '%d %ss in list, %d in the by-name dictionary (missing: %r)'
+                             % (len(lst), what, len(dct), sorted(set(now) - set(dct))[:4])))
+        # the by-name de-duplication the dictionaries exist for: an existing name must not be added a second time
+        try:
+            with quiet():
+                if what == 'layer':
+                    geo.add_layer(m.layer(now[-1], lst[-1].bottom - 1.0, lst[-1].bottom - 0.5))
+                else:
+                    geo.add_column(m.column(now[-1], list(lst[-1].node)))
+        except Exception as e:
+            problems.append(('raises-%s' % type(e).__name__, 'adding a %s under the existing name %r raised %r' % (what, now[-1], e)))
+        after = [x.name for x in lst_of()]
+        if len(after) != count0 or len(set(after)) != len(after):
+            problems.append(('duplicate-name', 'after %s and add_%s(%r): %s names %r' % (op, what, now[-1], what, after[-5:])))
+        blk = geo.block_name_list
+        try:
+            with quiet():
+                geo.setup_block_name_index()
+            blk = geo.block_name_list
+        except Exception as e:
+            problems.append(('raises-%s' % type(e).__name__, 'setup_block_name_index raised %r' % (e,)))
+        if len(set(blk)) != len(blk):
+            problems.append(('duplicate-block-name', '%d block names, %d distinct' % (len(blk), len(set(blk)))))
+        for c, w in problems:
+            add(op, c, 'below-capacity', 0, '%s(%r, %r): %s' % (op, old if len(old) < 5 else old[:4] + ['...'],
+                                                               new if len(new) < 5 else new[:4] + ['...'], w))
+        if problems:
+            ok = False
+    return ok
+
+
+def edit_sequence(conv, cs, seq, spaces, atm, grid, prime='none'):
     """-> (violations [(sig, what, step)], operations applied, set of operations for which exhaustion was reached)."""
     m = lib()
     chars_arg = cs
@@ -986,17 +1073,24 @@ def edit_sequence(conv, cs, seq, spaces, atm, grid):
     CL = N.COLNAME_LENGTH[conv]
     nx, ny = grid
     viol, reached = [], set()
-    desc = '%s on rectangular(%dx%dx1, convention %d, atmos_type %d, chars %r, spaces %s)' % (seq, nx, ny, conv, atm, cs, spaces)
+    desc = '%s%s on rectangular(%dx%dx1, convention %d, atmos_type %d, chars %r, spaces %s)' % (
+        '' if prime == 'none' else prime + ' then ', seq, nx, ny, conv, atm, cs, spaces)
+    route = '' if prime == 'none' else '|after=%s' % prime
 
     def add(op, clause, rel, step, what):
-        viol.append(('C17|%s|%s|conv=%d,%s|edit-sequence' % (op, clause, conv, rel), '%s, operation %d (%s): %s' % (desc, step, op, what), step))
+        viol.append(('C17|%s|%s|conv=%d,%s|edit-sequence%s' % (op, clause, conv, rel, route),
+                     '%s, operation %d (%s): %s' % (desc, step, op, what), step))
 
     try:
         with quiet():
-            geo = m.mulgrid().rectangular([10.0] * nx, [10.0] * ny, [5.0], convention=conv, atmos_type=atm,
-                                          justify='r', chars=chars_arg, spaces=spaces)
+            geo = m.mulgrid().rectangular([10.0] * nx, [10.0] * ny, [5.0] if prime == 'none' else [5.0, 5.0], convention=conv,
+                                          atmos_type=atm, justify='r', chars=chars_arg, spaces=spaces)
     except m.NamingConventionError:
         return viol, 0, reached          # this grid cannot be named with the alphabet: nothing to edit
+    if prime != 'none':
+        if not rename_prime(m, geo, prime, chars_arg, spaces, CL, N.LAYERNAME_LENGTH[conv], add):
+            return viol, 1, reached
+        chars = N.uniq(cs)
     cap = N.letter_capacity(len(chars), CL, spaces if seq != 'split' else True)
     steps = 0
     phase = 'triangulate' if seq.startswith('triangulate') else seq
@@ -1072,16 +1166,19 @@ def run_ED(unit, tier, rec):
     for spaces in ((True,) if (seq == 'split' or len(set(cs)) != len(cs)) else (True, False)):
         for atm in (0, 2):
             for grid in EDIT_GRIDS:
-                with core.timelimit(300):
-                    viol, steps, reached = edit_sequence(conv, cs, seq, spaces, atm, grid)
-                rec.case(('ED', conv, cs, seq, spaces, atm, grid), nontrivial=steps > 0,
-                         outcome='edit-sequence:' + ('exhausted' if reached else ('not-exhausted' if steps else 'grid-not-nameable')))
-                rec.count('edit_operations', steps)
-                for op in reached:
-                    rec.count('exhaustion_reached:' + op, 1)
-                for sig, what, st in viol:
-                    rec.violation(sig, what, {'kind': 'edit-sequence', 'conv': conv, 'chars': cs, 'seq': seq, 'spaces': spaces,
-                                              'atmos': atm, 'grid': list(grid), 'step': st})
+                for prime in RENAME_PRIMES:
+                    with core.timelimit(300):
+                        viol, steps, reached = edit_sequence(conv, cs, seq, spaces, atm, grid, prime)
+                    rec.case(('ED', conv, cs, seq, spaces, atm, grid, prime), nontrivial=steps > 0,
+                             outcome='edit-sequence:' + ('exhausted' if reached else ('not-exhausted' if steps else 'grid-not-nameable')))
+                    rec.count('edit_operations', steps)
+                    if prime != 'none' and steps:
+                        rec.count('edit_sequences_after_rename', 1)
+                    for op in reached:
+                        rec.count('exhaustion_reached:' + op, 1)
+                    for sig, what, st in viol:
+                        rec.violation(sig, what, {'kind': 'edit-sequence', 'conv': conv, 'chars': cs, 'seq': seq, 'spaces': spaces,
+                                                  'atmos': atm, 'grid': list(grid), 'step': st, 'prime': prime})
 
 
 def run_C(unit, tier, rec):
@@ -1289,7 +1386,7 @@ def replay(case):
         return [(s, w) for s, w, num in viol if num == case['n']]
     if k == 'edit-sequence':
         viol, steps, reached = edit_sequence(case['conv'], case['chars'], case['seq'], case['spaces'], case['atmos'],
-                                             tuple(case['grid']))
+                                             tuple(case['grid']), case.get('prime', 'none'))
         return [(s, w) for s, w, st in viol]
     if k == 'int_to_chars':
         viol, n = check_int_to_chars(case['justify'], case['chars'], case['spaces'], case['length'], nmax=case['n'])
